@@ -20,7 +20,7 @@ func init() {
 		ID:    "C12",
 		Level: "fault_enumeration",
 		Rule: "faults: for every history over the 11-symbol alphabet of C11 (member a has a 200-byte name so that compactions happen) of length 1..3 plus the length-4 histories that start with the join of a (quick) / length 1..4 plus the length-5 histories that start with the join of a (thorough), for minCompactSize 1 and 64: the history is run once without fault to count the faultable file calls (open, write, sync, close, remove, rename, reopen; bufio flushes are the writes), then once per call index k with that call failing once (vos.ErrInjected; failing writes both as 'nothing written' and as 'first half written'). After the event in which the fault hit 31 s of virtual time pass, the rest of the history runs, then the local clock is incremented and a new member c joins, the snapshotter is shut down and a fresh real NewSnapshotter reads the directory back. Faults that fall into the final shutdown sequence are checked for panics only. " +
-			"one case = one (history, k, write-variant); non-trivial = the fault hit inside a compaction (temp file involved or remove/rename/reopen) or was followed by at least one more history event",
+			"one case = one (history, k, write-variant); non-trivial = the fault hit inside a compaction (temp file involved or remove/rename/reopen) or was followed by at least one more history event; every case is run with the fault healing at once and healing 600 ms of virtual time later (past the flush interval)",
 		Assumptions: []string{
 			"a transient fault = exactly one failing call; every later call succeeds",
 			"'later changes are recorded' oracle: the restart must equal the reference replay of the logical lines in which every line produced after the event during which the fault hit is present, while each line produced up to and including that event (and the clock line of the 31 s pause) may be present or absent; the added clock increment and join of c always come after the fault, so the recovered clock and the presence of c are always determined",
@@ -116,17 +116,26 @@ func c12history(ctx *vc.Ctx, scn *vc.Scenario, minCompact int, h string, only in
 			variants = append(variants, true)
 		}
 		for _, short := range variants {
+			c12healFor = 0
 			c12case(ctx, scn, minCompact, h, k, short, k <= fHist, base, fops[k-1], only > 0)
+			// the same fault, but only 600 ms pass before the node goes on: a single transient fault
+			// is repaired by the recovery compaction at once, it does not need the 30 s retry interval
+			c12healFor = 600 * time.Millisecond
+			c12case(ctx, scn, minCompact, h, k, short, k <= fHist, base, fops[k-1], only > 0)
+			c12healFor = 0
 		}
 	}
 }
+
+// c12healFor: how long the node pauses after the event in which the fault hit (0 = 31 s).
+var c12healFor time.Duration
 
 func c12case(ctx *vc.Ctx, scn *vc.Scenario, minCompact int, h string, k int, short, inHistory bool, base *c11res, baseOp int, verbose bool) {
 	extra := ""
 	if inHistory {
 		extra = "cx"
 	}
-	r := c11exec(c11opts{minCompact: minCompact, syms: h, extra: extra, failAt: k, shortWrite: short, heal: true})
+	r := c11exec(c11opts{minCompact: minCompact, syms: h, extra: extra, failAt: k, shortWrite: short, heal: true, healFor: c12healFor})
 	rp := c11replay{Check: "C12", MinCompact: minCompact, History: h, Point: k, ShortWrite: short}
 	failed := r.fs.Failed
 	if failed == nil || failed.Kind != base.fs.Log[baseOp].Kind || failed.Path != base.fs.Log[baseOp].Path {
@@ -228,7 +237,7 @@ func c12case(ctx *vc.Ctx, scn *vc.Scenario, minCompact int, h string, k int, sho
 		for _, l := range m.lines {
 			ls = append(ls, fmt.Sprintf("%s(ev%d)", l.String(), l.ev+1))
 		}
-		ctx.Violation(scn.Name, sig, fmt.Sprintf("%s; afterwards +31 s, the rest of the history, clock+1, join c, shutdown.\nreference lines (symbols %q): %s\nrestart recovers [%s]%s\nreference final state [%s]; no choice of dropping lines produced up to the fault explains the difference\nfinal directory: %s%s",
+		ctx.Violation(scn.Name, sig, fmt.Sprintf("%s; afterwards a pause (31 s, or 600 ms in the second run of the case), the rest of the history, clock+1, join c, shutdown.\nreference lines (symbols %q): %s\nrestart recovers [%s]%s\nreference final state [%s]; no choice of dropping lines produced up to the fault explains the difference\nfinal directory: %s%s",
 			head, syms, strings.Join(ls, " / "), rec.key, rec.fail, full, c11imageText(r.fs.Image()), tail()), rp)
 		scn.Case(sig, nontrivial)
 		return
